@@ -133,12 +133,20 @@ func repoFromGoMod(gomod string) string {
 // ---- configuration (conf/C12.known.json) ----
 
 type exclEntry struct {
-	Func   string `json:"func"`   // function in whose dynamic extent the fact is excluded
-	Site   string `json:"site"`   // optional: only this call site of func ("Callee#n")
-	Kind   string `json:"kind"`   // "loc" | "yield" | "order"
-	Item   string `json:"item"`   // location class (kind loc) or mutex (kind order); "" for yield
-	Reason string `json:"reason"` // why
-	Slug   string `json:"slug"`   // finding slug (known findings)
+	Func      string `json:"func"`   // function in whose dynamic extent the fact is excluded
+	Site      string `json:"site"`   // optional: only this call site of func ("Callee#n")
+	Kind      string `json:"kind"`   // "loc" | "yield" | "order"
+	Item      string `json:"item"`   // location class (kind loc) or mutex (kind order); "" for yield
+	Reason    string `json:"reason"` // why
+	Slug      string `json:"slug"`   // finding slug (known findings)
+	Generated bool   `json:"generated,omitempty"`
+}
+
+type confinedField struct {
+	Writer []string `json:"writer"` // functions that may use the write half (bufio.Writer methods)
+	Reader []string `json:"reader"` // functions that may use the read half (bufio.Reader methods)
+	Ref    []string `json:"ref"`    // functions that may touch the field itself (construction)
+	Reason string   `json:"reason"`
 }
 
 type modelConf struct {
@@ -149,6 +157,9 @@ type modelConf struct {
 	StateOwned []string `json:"state_owned_types"`
 	// state-owned types that are never snapshots (always live).
 	AlwaysLive []string `json:"always_live_types"`
+	// Fields used by one goroutine at a time by construction (checked: every use must be in the
+	// dynamic extent of an owner of the half that is used).
+	Confined map[string]confinedField `json:"confined_fields"`
 	// All fields of these types are one location class.
 	LocAlias map[string]string `json:"loc_alias"`
 	// Dynamic calls through these fields are calls of standard-library functions.
@@ -211,6 +222,23 @@ func main() {
 		os.Exit(2)
 	}
 
+	var ckeys []string
+	for k := range mc.Confined {
+		ckeys = append(ckeys, k)
+	}
+	sort.Strings(ckeys)
+	for _, k := range ckeys {
+		cf := mc.Confined[k]
+		for _, h := range []struct {
+			half  string
+			funcs []string
+		}{{"writer", cf.Writer}, {"reader", cf.Reader}, {"ref", cf.Ref}} {
+			for _, fn := range h.funcs {
+				mc.Design = append(mc.Design, exclEntry{Func: fn, Kind: "loc", Item: k + "(" + h.half + ")", Generated: true,
+					Reason: "confined (confined_fields): " + cf.Reason})
+			}
+		}
+	}
 	w := newWorld(fset, []*pkgSrc{gp, cg}, &mc)
 	w.run()
 	coqText := w.coq(*repo)
